@@ -19,7 +19,7 @@ run_one() { # patch prop kind
   echo "{\"patch\": \"$patch\", \"property\": \"$prop\", \"kind\": \"$kind\", \"exit\": $rc, \"first_violation\": \"$first_v\", \"other_property_verdicts\": $others}" >> $OUT.tmp
   echo "  $kind $prop $(basename $(dirname $patch))/$(basename $patch) exit=$rc"
 }
-for d in /verif/seeded/C*/; do p=$(basename $d); run_one $d/patch.diff $p seeded; done
+for d in /verif/seeded/C*/; do p=$(basename $d); [ -f $d/patch.diff ] && run_one $d/patch.diff ${p:0:3} seeded; done
 run_one /verif/mutants/N01_NEG_tie_lighter_first.patch C06 negative-control
 run_one /verif/mutants/N03_NEG_skip_index_delete.patch C10 negative-control
 run_one /verif/mutants/N03_NEG_skip_index_delete.patch C04 negative-control
